@@ -274,6 +274,16 @@ func TestC07Scheduled(t *testing.T) {
 			gs := stack.GoroutinesWith("cache/disk.")
 			t.Fatalf("schedule did not complete (deadlock?): %v\n%s\ngoroutines in cache/disk:\n%s", err, ctxs, strings.Join(gs, "\n\n"))
 		}
+		// read-back after the last response: what was acknowledged must be there
+		for _, kk := range []struct {
+			k  cache.EntryKind
+			hs string
+		}{{kind, hash}, {cache.CAS, casHash}} {
+			e := event{op: "contains", key: cache.LookupKey(kk.k, kk.hs), inv: h.tick(), detail: "(read-back)"}
+			e.ok, _ = s.Cache.Contains(context.Background(), kk.k, kk.hs, -1)
+			e.res = h.tick()
+			h.add(e)
+		}
 		evs := h.events
 		if herr := checkHistory(evs, !tight, false, sizes, corruptKeys); herr != nil {
 			t.Fatalf("%v\n%s\nhistory:\n%s", herr, ctxs, fmtHistory(evs))
